@@ -133,6 +133,8 @@ class Endpoint:
         self.channels = []     # every RTCDataChannel object seen on this side (creation/announce order)
         self.reentrancy = 0
         self.crashes = []
+        self.reacted = []
+        self.reactions = []    # armed one-shot application handlers: [kind, channel index, data] (see react())
         self.dtls = DtlsStub(self, role)
         _CUR = self
         _RANDOM[:] = [tag, tsn]
@@ -146,6 +148,22 @@ class Endpoint:
               ch.maxRetransmits, ch.maxPacketLifeTime)
         self.events.append(ev)
         self.log.append(ev)
+        self._react(4, self.channels.index(ch), ch)
+
+    def _react(self, kind, i, ch):
+        """An application event handler that calls `send()` from inside the event (one-shot, armed by react())."""
+        for r in self.reactions:
+            if r[0] == kind and (kind == 4 or r[1] == i):
+                self.reactions.remove(r)
+                try:
+                    ch.send(r[2])
+                    self.reacted.append((i, r[2]))
+                    self.events.append(("rsend", i, r[2]))      # for the oracles only (not an output of the transport)
+                except Exception as exc:  # noqa: BLE001 - stays inside the application's handler
+                    ev = ("rexc", i, type(exc).__name__)
+                    self.events.append(ev)
+                    self.log.append(ev)
+                return
 
     def _watch(self, ch):
         if ch in self.channels:
@@ -156,10 +174,10 @@ class Endpoint:
             self.events.append(ev)
             self.log.append(ev)
 
-        ch.on("open", lambda: rec("open", i))
-        ch.on("close", lambda: rec("close", i))
-        ch.on("bufferedamountlow", lambda: rec("low", i))
-        ch.on("message", lambda msg: rec("message", i, msg))
+        ch.on("open", lambda: (rec("open", i), self._react(0, i, ch)))
+        ch.on("close", lambda: (rec("close", i), self._react(1, i, ch)))
+        ch.on("bufferedamountlow", lambda: (rec("low", i), self._react(2, i, ch)))
+        ch.on("message", lambda msg: (rec("message", i, msg), self._react(3, i, ch)))
 
     def _drive(self, coro):
         """Run a coroutine to completion; it must not suspend."""
@@ -180,6 +198,7 @@ class Endpoint:
         self.log = []
         self.outbox = []
         self.events = []
+        self.reacted = []      # (channel index, data) of send() calls accepted inside an event handler in this step
 
     def guard(self, fn, kind="crash"):
         """Run fn; record an escaping exception: `crash` for handlers (what would kill the DTLS pump
@@ -248,6 +267,13 @@ class Endpoint:
     def close(self, i):
         self.begin()
         return self.guard(lambda: self.channels[i].close(), "exc")
+
+    def react(self, kind, i, data):
+        """Arm a one-shot handler: at the next event `kind` (0 open, 1 close, 2 bufferedamountlow, 3 message of
+        channel i; 4 the transport's datachannel event) the application calls send(data) from inside the handler."""
+        self.begin()
+        self.reactions.append([kind, i, data])
+        return None
 
     def set_threshold(self, i, v):
         self.begin()
